@@ -719,7 +719,13 @@ def _v_bfs_edges_own_answer(tree):
     g.body[1:1] = M.stmts("if source == target:\n    return Result([source], 0, 0, 0)") if isinstance(g.body[0], ast.Expr) else M.stmts("if source == target:\n    return Result([source], 0, 0, 0)")
 
 
+def _v_edge_validator_fast_path(tree):
+    g = M.find_func(tree, "check_edge_nodes")
+    g.body.insert(1 if isinstance(g.body[0], ast.Expr) else 0, M.stmts("if edges and min(u for u, _, _ in edges) >= 0 and max(max(u, v) for u, v, _ in edges) < n_nodes:\n    return")[0])
+
+
 VARIANTS = [
+    M.Variant("check_edge_nodes returns early when the sources are non-negative and no endpoint is too large (seed C11-U)", "solvor/utils/validate.py", _v_edge_validator_fast_path, "C11-G7"),
     M.Variant("astar_grid lowers the caller's iteration budget to the number of passable cells (seed C11-S)", AS, _v_grid_budget_capped, "C11-G17"),
     M.Variant("floyd_warshall skips pivots that no listed edge leaves (seed C11-T)", FW, _v_floyd_skips_sink_pivots, "C11-O5"),
     M.Variant("bfs_edges answers source == target by itself", BS, _v_bfs_edges_own_answer, "C11-O1"),
